@@ -1,4 +1,5 @@
 import importlib
+import importlib.util
 import pathlib
 import sys
 import warnings
@@ -33,24 +34,37 @@ def load_model_from_file(path, register=False):
         If the model cannot be imported
     """
     path = pathlib.Path(path)
+    # remember the import state, so we can restore it afterwards
+    sys_path = list(sys.path)
+    dont_write_bytecode = sys.dont_write_bytecode
     try:
-        # insert the plugin directory to sys.path so we can import it
-        sys.path.insert(-1, str(path.parent))
+        # insert the plugin directory to sys.path, such that the model
+        # file may import modules located next to it
+        sys.path.insert(0, str(path.parent))
         sys.dont_write_bytecode = True
-        module = importlib.import_module(path.stem)
-    except ModuleNotFoundError:
-        raise ModelImportError(f"Could not import '{path}'!")
+        # Import the file itself (and not whatever module with the same
+        # name was imported before, e.g. an earlier version of the file
+        # or a file with the same name in a different directory).
+        spec = importlib.util.spec_from_file_location(path.stem, path)
+        if spec is None:
+            raise ModelImportError(f"Could not import '{path}'!")
+        module = importlib.util.module_from_spec(spec)
+        spec.loader.exec_module(module)
+    except Exception as exc:
+        raise ModelImportError(
+            f"Could not import '{path}': {exc.__class__.__name__}: {exc}"
+        ) from exc
     finally:
-        # undo our path insertion
-        sys.path.remove(str(path.parent))
-        sys.dont_write_bytecode = False
+        # undo our changes of the import state
+        sys.path[:] = sys_path
+        sys.dont_write_bytecode = dont_write_bytecode
 
-        mod = NaniteFitModel(module)
+    mod = NaniteFitModel(module)
 
-        if register:
-            register_model(module)
+    if register:
+        register_model(mod)
 
-        return mod
+    return mod
 
 
 def register_model(module, *args):
